@@ -42,6 +42,9 @@ func Equal(fg *FunctionGenerator) OperationMatrix {
 
 	ef := func(st funcGen.Stack[Value], a, b Value) (bool, error) {
 		eq, err := deepEqual.Calc(st, a, b)
+		if err != nil {
+			return false, err
+		}
 		return bool(eq.(Bool)), err
 	}
 	fg.equal = ef
